@@ -36,8 +36,12 @@ DEFAULT_ENCODE_SET = frozenset(b' "#<>?`')
 Does not include U+0000 to U+001F nor U+001F or above.
 '''
 
-PASSWORD_ENCODE_SET = DEFAULT_ENCODE_SET | frozenset(b'/@\\')
-'''Encoding set for passwords.'''
+PASSWORD_ENCODE_SET = DEFAULT_ENCODE_SET | frozenset(b'/@\\%')
+'''Encoding set for passwords.
+
+The percent sign is included because user names and passwords are stored
+percent-decoded: a literal ``%`` must be written back as ``%25``.
+'''
 
 USERNAME_ENCODE_SET = PASSWORD_ENCODE_SET | frozenset(b':')
 '''Encoding set for usernames.'''
